@@ -455,7 +455,7 @@ Section WithTable.
     intros Hrow. unfold load_from_cond_file.
     set (args := dict_merge (defaults_of row) kwargs). split.
     - intros H. apply bind_ok in H as ([] & Hv & H). apply validate_generic in Hv.
-      destruct (lookup K_name args) as [[s| | | | | | |]|] eqn:El; try discriminate H.
+      destruct (lookup K_name args) as [[s| | | | | | | |]|] eqn:El; try discriminate H.
       destruct (is_name_valid s) eqn:En; [|discriminate H]. inversion H; subst.
       apply (name_valid_spec Hname) in En. exists s. auto.
     - intros (s & Hs & El & Hn & ->). apply (proj2 (validate_generic _ _)) in Hs. rewrite Hs. simpl.
@@ -560,7 +560,7 @@ Section WithTable.
     - split.
       + intros H; inversion H; subst. exists []. rewrite app_nil_r. simpl. auto.
       + intros (new & -> & HF & _). inversion HF; subst. rewrite app_nil_r; reflexivity.
-    - destruct x as [s| | | | | | |];
+    - destruct x as [s| | | | | | | |];
         try (split; [intros H0; discriminate H0 | intros (new & _ & HF & _); inversion HF as [|? ? ? ? (s0 & E & _)]; discriminate E]).
       destruct (resolve_dep dir s) as [i|] eqn:Er.
       + apply resolve_dep_spec in Er. destruct (existsb (ident_eqb i) acc) eqn:Ee.
